@@ -231,6 +231,13 @@ class World:
         flush(self.app)
 
 
+def draw_args(rng) -> dict[str, str]:
+    """all three arguments are drawn from ONE small pool, so the same values occur under different argument names
+    (permuted / repeated values): a lookup that does not tie each value to its own argument name over-matches"""
+    pool = ["a", "b", "d"]
+    return {"k": rng.choice(pool), "v": rng.choice(pool), "w": rng.choice(["e", "a"])}
+
+
 def scenario_random(w: World, nsteps: int) -> None:
     rng = w.ctx.rng
     running: dict[str, str] = {}
@@ -239,11 +246,11 @@ def scenario_random(w: World, nsteps: int) -> None:
         w.clock.advance(1000)
         r = rng.random()
         if r < 0.30:
-            w.submit_single({"k": rng.choice("ab"), "v": rng.choice(["d", "x"]), "w": "e"})
+            w.submit_single(draw_args(rng))
             w.check_statuses("single submission")
         elif r < 0.42:
-            same = {"k": rng.choice("ab"), "v": rng.choice(["d", "x"]), "w": "e"}
-            w.submit_batch([dict(same) if rng.random() < 0.6 else {"k": rng.choice("ab"), "v": rng.choice(["d", "x"]), "w": "e"} for _ in range(rng.randint(2, 3))])
+            same = draw_args(rng)
+            w.submit_batch([dict(same) if rng.random() < 0.6 else draw_args(rng) for _ in range(rng.randint(2, 3))])
             w.check_statuses("batch submission")
         elif r < 0.65:
             got = w.poll(rng.randint(1, 3), "rA")
